@@ -36,7 +36,7 @@ RULE = ("Hypothesis draws one simulation directory (harness/etgen.py: 3-7 "
         "points per axis, 1 or 4-8 components, 1-2 levels, 1-3 overlapping "
         "restarts, 1-4 variable groups biased to tensor groups, any of the "
         "four layouts, values encoding variable/iteration/level/restart/"
-        "position injectively) and a list of 3-10 read_data calls, each with "
+        "position injectively) and a list of 3-8 (thorough 3-12) read_data calls, each with "
         "a subset of variables mixing aurel tensor names and component names "
         "(or [] = all), an unsorted iteration subset, a level, restart -1 or "
         "fixed, split_per_it in {True, False}; the cache starts empty. After "
@@ -56,7 +56,7 @@ ASSUMPTIONS = [
     "cache datasets are named '<aurel variable> rl=<k>', 't rl=<k>', "
     "'it rl=<k>' in <restart>/all_iterations/it_<n>.hdf5 (save_data docstring)",
 ]
-BUDGET_S = {"quick": 85, "thorough": 1150}
+BUDGET_S = {"quick": 85, "thorough": 1050}
 
 TENSOR_BIASED = ["admbase-shift", "admbase-shift", "admbase-metric",
                  "hydrobase-vel", "ml_bssn-ml_mom", "admbase-lapse",
@@ -324,7 +324,7 @@ def selftest():
 def subchecks(tier):
     q = tier == "quick"
     return [
-        Sub("history", history(8 if q else 10), test_history,
-            96 if q else 1500, generic=GENERIC, shards=8 if q else 16,
+        Sub("history", history(8 if q else 12), test_history,
+            96 if q else 5000, generic=GENERIC, shards=8 if q else 16,
             max_rounds=6, shrink_quick=False),
     ]
